@@ -104,6 +104,11 @@ def _element(eng, node_elts, gen, st, fid, seq, inner=None):
             raise Unsupported("inner iterable of a comprehension forks or raises")
         _, s, itv = outs[0]
         sq2 = B.to_seq(eng, s, itv) if isinstance(itv, VTuple) else None
+        if sq2 is None and not isinstance(itv, VTuple) and eng.hooks.get("iter"):
+            # an external collection that a contract module's `iter` hook knows to have a FIXED number of elements
+            r2 = eng.hooks["iter"](eng, s, itv)
+            if r2 is not None and len(r2) == 1 and r2[0][0] == "ok" and r2[0][2].known_len:
+                s, sq2 = r2[0][1], r2[0][2]
         if sq2 is None or not sq2.known_len:
             raise Unsupported("second `for` clause of a comprehension over something else than a non-empty fixed-arity tuple")
         box["arity"] = sq2.known_len
@@ -264,7 +269,25 @@ def genexp(eng, node, st, fid):
     return eng.bind(_source_seq(eng, st, fid, gen), mk)
 
 
+def _listcomp_flat1(eng, node, st, fid):
+    """[elt for x in xs for y in <one-element iterable of x>]: the inner iterable has exactly ONE element (a 1-tuple, or an external
+    collection the `iter` hook gives the fixed length 1), so the flattening has one element per outer element, in the outer order;
+    other arities stay unsupported"""
+    g0, g1 = node.generators
+
+    def mk(s, seq):
+        box = {}
+        i, cond, vals, extra = _element(eng, [node.elt], g0, s, fid, seq, inner=(g1, 0, box))
+        if box.get("arity") != 1:
+            raise Unsupported("two-generator list comprehension whose inner iterable does not have exactly one element")
+        s = _with_extras(s, seq, i, cond, extra)
+        return gen_to_list(eng, s, VGen(seq, i, cond, vals[0]))
+    return eng.bind(_source_seq(eng, st, fid, g0), mk)
+
+
 def listcomp(eng, node, st, fid):
+    if len(node.generators) == 2 and not any(g.is_async for g in node.generators):
+        return _listcomp_flat1(eng, node, st, fid)
     gen = _single_gen(node)
 
     def mk(s, seq):
